@@ -7,6 +7,7 @@ from concurrent.futures import ThreadPoolExecutor
 
 VERIF = os.path.dirname(os.path.dirname(os.path.abspath(__file__)))
 RUNDIR = os.path.join(VERIF, '.cache', 'run')
+REPO_DIR = os.path.realpath(os.environ.get('VERIF_REPO', '/repo')) + '/'
 NJOBS = int(os.environ.get('VERIF_JOBS', '16'))
 
 SAN_ENV = {
@@ -47,7 +48,7 @@ def summarize_sanitizer(stderr):
     if not tool:
         return None
     frames = re.findall(r'#\d+ 0x[0-9a-f]+ in (\S+) (\S+)', stderr)
-    lib = [f for f, loc in frames if '/repo/' in loc or re.match(r'p?[sdczx]g|sp_|[sdcz]', f)]
+    lib = [f for f, loc in frames if '/repo/' in loc or REPO_DIR in loc or re.match(r'p?[sdczx]g|sp_|[sdcz]', f)]
     lib = [re.sub(r'^p([sdcz])g', 'p?g', re.sub(r'^([sdcz])(g[a-z]+|la|sp_|Pivot|read|Copy|Create|CompRow|user_|myblas)', r'?\2', f)) for f in lib
            if not f.startswith('__') and f not in ('main',)]
     top = lib[0] if lib else (frames[0][0] if frames else '?')
